@@ -12,6 +12,7 @@ from sim.runner import Result, rng_for, digest_of
 from sim import toolkit
 from sim import refcodec as rc
 from engines.um_model import Monitor, KNOWN_VERBS, P_NS, HYPER
+from engines import um_race
 
 FREQ_POOLS = [
 	[890000, 890200, 935000, 935200],
@@ -565,6 +566,8 @@ class World:
 			return orig_start()
 		gen.start = start
 		self.binds_at_init = list(net.binds)
+		if cfg.get("mode") == "fine":
+			sim.enable_line_preemption(um_race.TRACE_FILES)
 		# the socket thread
 		t = sim.spawn(app.run, "sock")
 		sim.start_thread(t)
@@ -645,13 +648,27 @@ class World:
 		except Exception as e:
 			sim.record("parse-raised", cls=op["cls"], exc=type(e).__name__, msg=str(e)[:100])
 
+	def sync_op(self, op):
+		"""Release the datagram at exactly the instant the clock thread wakes up for its next
+		tick, so that both threads are runnable together."""
+		sim = self.sim
+		due = [x.wake_at for x in sim.threads if x.name != "sock" and x.state == "blocked" and x.wake_at is not None and x.wake_at >= sim.now]
+		if due:
+			self.fired("race-release")
+			sim.at(min(due), lambda: self.do_op(op))
+		else:
+			self.do_op(op)
+
 	def run_ops(self):
 		sim = self.sim
 		ops = self.plan["ops"]
 		t = 0
 		for op in ops:
 			t += max(0, int(op.get("dt", 0)))
-			sim.at(t, lambda op=op: self.do_op(op))
+			if op.get("sync") == "tick":
+				sim.at(t, lambda op=op: self.sync_op(op))
+			else:
+				sim.at(t, lambda op=op: self.do_op(op))
 		self.t_end = t
 		sim.run(until=t + 2 * P_NS)
 		# drain: let the socket thread finish what it has read (delayed responses, queued datagrams)
@@ -676,6 +693,10 @@ class UmEngine:
 			toolkit.tk(m)
 
 	def generate(self, seed, prop, tier):
+		if prop == "C03" and rng_for(seed, "profile").random() < 0.55:
+			plan = um_race.build_race_plan(rng_for(seed, "plan"), tier)
+			plan["seed"] = seed
+			return plan
 		g = Gen(seed, prop, tier)
 		plan = g.build()
 		plan["seed"] = seed
@@ -721,6 +742,92 @@ class UmEngine:
 				yield p
 
 	def execute(self, plan, prop, choices=None):
+		if plan["config"].get("mode") == "fine":
+			return self.execute_fine(plan, prop, choices)
+		return self.execute_coarse(plan, prop, choices)
+
+	# ---- fine schedules (C03 race profile) ------------------------------------------------
+	def _run_world(self, plan, pol, log_points=False):
+		w = World(plan, pol)
+		sim = w.sim
+		if log_points:
+			sim.point_log = []
+		toolkit.capture_logs(lambda lvl, fn, msg: sim.record("log", level=lvl, file=fn, msg=msg))
+		try:
+			w.build()
+			w.run_ops()
+			stuck = [b for b in sim.blocked_threads() if b[1] and b[1][0] == "lock"]
+		finally:
+			sim.abort()
+			w.restore()
+			toolkit.release_logs()
+		return w, stuck
+
+	def execute_fine(self, plan, prop, choices=None):
+		seed = plan.get("seed") or 0
+		fine = plan["config"].get("fine", {})
+		res = Result()
+		if choices is None:
+			# a dry run (no pre-emption) lists every decision point — line events executed by one
+			# thread while the other is runnable — with its race window and source line; the
+			# strategy then places change points among them
+			srng = rng_for(seed, "sched")
+			picks = [srng.randrange(2) for _ in range(64)]
+			w0, _ = self._run_world(plan, Policy(picks=picks), log_points=True)
+			pts = w0.sim.point_log
+			L = max(1, len(pts))
+			windows = {}
+			for key, th, loc in pts:
+				windows.setdefault(key[0], []).append((key, loc))
+			strat = fine.get("strategy", "sweep")
+			pre = []
+			walk = 0.0
+			if strat == "sweep":
+				# one change point per race window: a source line chosen uniformly among the lines
+				# executed in the window, then one of its dynamic occurrences
+				for wt in sorted(windows):
+					by_loc = {}
+					for key, loc in windows[wt]:
+						by_loc.setdefault(loc, []).append(key)
+					loc = srng.choice(sorted(by_loc))
+					pre.append(srng.choice(by_loc[loc]))
+			elif strat in ("pct2", "pct3"):
+				d = 2 if strat == "pct2" else 3
+				for wt in sorted(windows):
+					n = len(windows[wt])
+					pre += [(wt, srng.randint(1, 2 * n)) for _ in range(d)]
+			else:
+				walk = fine.get("p", 0.05)
+			pol = Policy(rng=srng, preempt_at=pre, walk_p=walk)
+			pol.replay_picks = list(picks)
+			res.probes["race-window-lines"] = L
+			res.probes["race-windows"] = len(windows)
+		else:
+			pol = Policy(picks=choices.get("picks"), preempt_at=choices.get("preempt_at"))
+		w, stuck = self._run_world(plan, pol)
+		sim = w.sim
+		viols, stats = um_race.check_race(sim.history, plan["config"])
+		if stuck:
+			viols.insert(0, {"clause": "C03.deadlock", "detail": {"blocked": str(stuck)[:200]}, "owners": ["C03"]})
+		for v in viols:
+			if v["clause"] == "C03.thread-death":
+				v["signature"] = "thread-death/%s/%s" % (v["detail"]["exc"], v["detail"]["where"][-1] if v["detail"]["where"] else "?")
+		res.violations = viols
+		res.sim_ns = sim.now
+		res.steps = sim.line_events
+		res.faults = dict(w.faults)
+		res.faults["pre-emption"] = len(pol.preempted_out)
+		for k, v in stats.items():
+			res.probes["race-" + k] = v
+		res.probes["ticks"] = w.ticks
+		res.probes["lock-contention"] = sim.lock_contention
+		res.digest = digest_of([sim.history, sim.switch_sig])
+		res.choices = {"picks": pol.picks_out, "preempt_at": [list(k) for k in pol.preempted_out]}
+		res.signature = digest_of([sim.switch_sig, stats])
+		res.nontrivial = stats["bursts"] > 0 and len(pol.preempted_out) > 0
+		return res
+
+	def execute_coarse(self, plan, prop, choices=None):
 		pol = Policy(rng=rng_for(plan.get("seed") or 0, "sched"),
 			picks=choices.get("picks") if choices else None,
 			preempt_at=choices.get("preempt_at") if choices else None)
